@@ -13,7 +13,7 @@ TYPES = [
     ("s8", "struct S8", "struct S8 { int a, b; };", "int"),
     ("s16fp", "struct S16 ", "struct S16 { double a; long b; };", "int"),
     ("s24", "struct S24", "struct S24 { long a, b, c; };", "int"),
-    ("sld", "struct SLD", "struct SLD { long double a; };", "int"),
+    ("sld", "struct SLD", "struct SLD { long double a; };", "x87"),     # psABI: X87,X87UP is returned in st(0)
 ]
 SCALAR = {"char", "int", "long", "float", "double", "ldouble", "ptr"}
 ARITH = {"char", "int", "long", "float", "double", "ldouble"}
